@@ -33,17 +33,27 @@ func init() {
 
 func runC34(c *core.Ctx) {
 	s := newScenario(c.Rng, 10)
+	guarded := false
 	for i, p := range s.Scripts {
 		var obs [3]Obs
 		rejected := false
 		for ei, eng := range host.AllEngines {
-			ob, _, o := s.runScript(eng, i, nil)
+			ob, _, o := s.runScript(eng, i, guard())
 			c.Eval(1)
 			if isCheckerRejection(o) {
 				rejected = true
 				break
 			}
+			if memGuarded(o) {
+				guarded = true
+				break
+			}
 			obs[ei] = ob
+		}
+		if guarded {
+			guarded = false
+			c.Inc("memory_guard_skipped")
+			continue
 		}
 		if rejected {
 			c.Inc("rejected_by_checker")
@@ -103,12 +113,20 @@ func runC34(c *core.Ctx) {
 			h := hs[ei]
 			pre[ei], preUUID[ei] = h.Ledger.Clone(), h.UUID
 			h.ResetTrace()
-			o := h.RunTx(eng, src, nil, signersFor(src), nil)
+			o := h.RunTx(eng, src, nil, signersFor(src), guard())
 			c.Eval(1)
 			if isCheckerRejection(o) && step > 0 {
 				rejected = true
 			}
+			if memGuarded(o) {
+				guarded = true
+			}
 			obs[ei] = observe(h, o)
+		}
+		if guarded {
+			// the harness' own memory bound was hit on some engine: the ledgers may differ from here on
+			c.Inc("memory_guard_skipped")
+			break
 		}
 		if rejected {
 			c.Inc("tx_rejected_by_checker")
